@@ -31,8 +31,11 @@ type fileOpts struct {
 	MapOrder bool
 	ChanIn   map[string]bool // function names whose channel operations are rewritten
 	ChanAll  bool            // channel operations of every function and every channel type in the file
-	Yield    string          // "", "coarse", "fine"
-	Access   map[string]bool // "Type.field"
+	// NoElementReads: with Access "*", reads of slice elements get no event (element writes and all
+	// field accesses still do): for packages whose inner loops read shared, immutable arrays
+	NoElementReads bool
+	Yield          string          // "", "coarse", "fine"
+	Access         map[string]bool // "Type.field"
 	// Deref: watched pointer fields whose method calls are accesses of the pointee
 	// (every method is a write except the listed read-only ones).
 	Deref map[string]map[string]bool
@@ -60,6 +63,14 @@ var profiles = map[string][]profile{
 			Access: map[string]bool{"knownValue.set": true, "Classifier.values": true, "matcher.queue": true, "*": true},
 			Deref:  map[string]map[string]bool{"matcher.queue": {"Len": true, "Min": true}}}}},
 		{Pkg: v1, Files: map[string]fileOpts{"classifier.go": {Sync: true, Go: true, ChanAll: true, MapOrder: true, Access: map[string]bool{"*": true}}}},
+	},
+	// v1 plus the searchset package (its sets are shared by all concurrent calls): for a few jobs only,
+	// the events in its loops cost time
+	"v1deep": {
+		{Pkg: v1 + "/stringclassifier", Files: map[string]fileOpts{"classifier.go": {Sync: true, Go: true, ChanAll: true, MapOrder: true,
+			Access: map[string]bool{"knownValue.set": true, "Classifier.values": true, "matcher.queue": true, "*": true},
+			Deref:  map[string]map[string]bool{"matcher.queue": {"Len": true, "Min": true}}}}},
+		{Pkg: v1 + "/stringclassifier/searchset", Files: map[string]fileOpts{"searchset.go": {Sync: true, Go: true, ChanAll: true, NoElementReads: true, Access: map[string]bool{"*": true}}}},
 	},
 	"backend": {{Pkg: v1 + "/v2/tools/identify_license/backend", Files: map[string]fileOpts{"backend.go": {Sync: true, Go: true,
 		ChanIn: map[string]bool{"ClassifyLicenses": true}, Access: map[string]bool{"ClassifierBackend.results": true, "*": true}}}}},
@@ -465,7 +476,7 @@ func (in *instr) rewriteList(list []ast.Stmt, chanOn bool) []ast.Stmt {
 				out = append(out, in.rewriteRangeMap(s))
 				continue
 			}
-			if in.opts.Access["*"] {
+			if in.opts.Access["*"] && !in.opts.NoElementReads {
 				if rs := in.rangeElementReads(s); rs != nil {
 					out = append(out, rs)
 					continue
@@ -939,7 +950,7 @@ func (in *instr) accessEvents(st ast.Stmt) []ast.Stmt {
 		case *ast.IndexExpr:
 			// element of a watched slice or array: the element is the location (two goroutines
 			// writing different elements do not conflict); the header is read
-			if in.opts.Access["*"] && in.hoistable(x, st) {
+			if in.opts.Access["*"] && in.hoistable(x, st) && (writes[x] || !in.opts.NoElementReads) {
 				name := in.watchedName(x.X)
 				if name == "" && writes[x] {
 					// an element WRITE through any other slice expression (a parameter, a local re-slice):
